@@ -48,6 +48,34 @@ def run_sql(state, text):
         db.close()
 
 
+def unnest_left(rendered):
+    """`((A op B) op C) op D` -> `A op B op C op D`: SQLAlchemy parenthesises a compound select that is the left
+    operand of another one.  Those parentheses state exactly the left-to-right grouping SQLite applies to the flat
+    text (all its set operators have equal precedence), but SQLite cannot parse them."""
+    t = rendered
+    while t.startswith('('):
+        depth = 0
+        in_str = False
+        for i, ch in enumerate(t):
+            if ch == "'":
+                in_str = not in_str
+            if in_str:
+                continue
+            if ch == '(':
+                depth += 1
+            elif ch == ')':
+                depth -= 1
+                if depth == 0:
+                    break
+        else:
+            return t
+        rest = t[i + 1:].lstrip()
+        if not re.match(r'(UNION|INTERSECT|EXCEPT)\b', rest):
+            return t
+        t = t[1:i] + ' ' + rest
+    return t
+
+
 def clause_kind(text, rendered, g):
     """Mechanism hint for a disagreement: which construct of the statement the renderer changed (by probing the
     rendered text for the constructs the original has)."""
@@ -108,9 +136,18 @@ def run_shard(ctx):
                     acc.count('original_not_executable')     # generator fault, never a verdict
                     continue
                 b = run_sql(st, rendered)
+                chain = any(f.startswith('setop-chain:') for f in g.features)
+                if b[0] != 'ok' and chain and rendered.startswith('('):
+                    if target == 'sqlite' and si == 0:
+                        acc.fail({'kind': 'rendered-not-executable', 'target': target, 'stmt': 'query', 'shape': 'setop-chain'},
+                                 {'text': text, 'rendered': rendered, 'error': b[1]})
+                    # keep deciding the rows: execute the same grouping written the way the reference engine reads it
+                    b = run_sql(st, unnest_left(rendered))
+                    if b[0] == 'ok':
+                        acc.count('setop_chain_executed_unnested')
                 if b[0] != 'ok':
                     if target == 'sqlite':
-                        acc.fail({'kind': 'rendered-not-executable', 'target': target, 'stmt': 'query' if is_query else text.split()[0].upper()},
+                        acc.fail({'kind': 'rendered-not-executable', 'target': target, 'stmt': 'query' if is_query else text.split()[0].upper(), 'shape': '-'},
                                  {'text': text, 'rendered': rendered, 'error': b[1]})
                     else:
                         acc.count('not_executable_here:' + target)
